@@ -272,3 +272,272 @@ func ruleAssertionIndependent(c *Ctx) {
 	}
 	c.census("T9-INDEP", "reads of a posting's balance assertion in the undeclared-commodity check", n, 1)
 }
+
+// ruleKeyBase (K-BASE): a map keyed by line numbers is keyed in one base.  Syntax-tree and token positions count
+// lines from 1, protocol positions from 0; the error-line and posting-line sets of formatting are keyed 0-based
+// (`Pos.Line - 1`).  For every map with integer keys the keys of all stores and lookups - through locals, struct
+// fields and the values stored into them - are classified by the linear form of the key: `<1-based line> + c` is
+// base 1 + c, `<protocol line> + c` is base c.  A map that is written in one base and read in another silently
+// misses (the posting on the line *after* a syntax error is treated as the erroneous one).
+func ruleKeyBase(c *Ctx) {
+	type use struct {
+		base int
+		pos  token.Pos
+		fn   *ssa.Function
+		what string
+	}
+	parent := map[any]any{}
+	var find func(x any) any
+	find = func(x any) any {
+		if p, ok := parent[x]; ok && p != x {
+			r := find(p)
+			parent[x] = r
+			return r
+		}
+		return x
+	}
+	union := func(a, b any) {
+		if a == nil || b == nil {
+			return
+		}
+		ra, rb := find(a), find(b)
+		if ra != rb {
+			parent[ra] = rb
+		}
+	}
+	idOf := func(v ssa.Value) any {
+		v = stripConv(v)
+		switch x := v.(type) {
+		case *ssa.UnOp:
+			if x.Op == token.MUL {
+				switch a := x.X.(type) {
+				case *ssa.FieldAddr:
+					return fieldVarOfAddr(a)
+				case *ssa.Alloc:
+					return a
+				}
+			}
+		case *ssa.Field:
+			if st, ok := x.X.Type().Underlying().(*types.Struct); ok {
+				return st.Field(x.Field)
+			}
+		case *ssa.MakeMap:
+			return x
+		case *ssa.Parameter:
+			return x
+		}
+		return nil
+	}
+	isIntKeyMap := func(t types.Type) bool {
+		mt, ok := t.Underlying().(*types.Map)
+		return ok && isIntType(mt.Key())
+	}
+	lc := &linCtx{leaf: map[string]ssa.Value{}}
+	classify := func(key ssa.Value) (int, bool) {
+		e := lc.expr(key, 0)
+		if len(e.t) != 1 {
+			return 0, false
+		}
+		for k, co := range e.t {
+			if co != 1 {
+				return 0, false
+			}
+			v := lc.leaf[k]
+			var fld *types.Var
+			var owner types.Type
+			switch x := v.(type) {
+			case *ssa.UnOp:
+				if fa, ok := x.X.(*ssa.FieldAddr); ok && x.Op == token.MUL {
+					fld = fieldVarOfAddr(fa)
+					owner = fa.X.Type().Underlying().(*types.Pointer).Elem()
+				}
+			case *ssa.Field:
+				if st, ok := x.X.Type().Underlying().(*types.Struct); ok {
+					fld = st.Field(x.Field)
+					owner = x.X.Type()
+				}
+			}
+			if fld == nil || fld.Name() != "Line" {
+				return 0, false
+			}
+			ts := types.TypeString(owner, nil)
+			switch {
+			case strings.HasSuffix(ts, "internal/parser.Position") || strings.HasSuffix(ts, "internal/ast.Position"):
+				return 1 + int(e.c), true
+			case strings.HasSuffix(ts, "protocol.Position"):
+				return int(e.c), true
+			}
+		}
+		return 0, false
+	}
+	uses := map[any][]use{}
+	var ids []any
+	for _, f := range c.P.ModuleFuncs() {
+		for _, b := range f.Blocks {
+			for _, ins := range b.Instrs {
+				switch x := ins.(type) {
+				case *ssa.Store:
+					if isIntKeyMap(x.Val.Type()) {
+						var dst any
+						switch a := x.Addr.(type) {
+						case *ssa.FieldAddr:
+							dst = fieldVarOfAddr(a)
+						case *ssa.Alloc:
+							dst = a
+						}
+						union(idOf(x.Val), dst)
+					}
+				case *ssa.MapUpdate:
+					if isIntKeyMap(x.Map.Type()) {
+						if id := idOf(x.Map); id != nil {
+							if bse, ok := classify(x.Key); ok {
+								uses[id] = append(uses[id], use{bse, x.Pos(), f, "store"})
+								ids = append(ids, id)
+							}
+						}
+					}
+				case *ssa.Lookup:
+					if isIntKeyMap(x.X.Type()) {
+						if id := idOf(x.X); id != nil {
+							if bse, ok := classify(x.Index); ok {
+								uses[id] = append(uses[id], use{bse, x.Pos(), f, "lookup"})
+								ids = append(ids, id)
+							}
+						}
+					}
+				}
+			}
+		}
+	}
+	// a map passed as an argument: parameter and argument are the same map
+	for _, f := range c.P.ModuleFuncs() {
+		for _, b := range f.Blocks {
+			for _, ins := range b.Instrs {
+				call, ok := ins.(ssa.CallInstruction)
+				if !ok {
+					continue
+				}
+				cal := call.Common().StaticCallee()
+				if cal == nil || !inModule(cal) {
+					continue
+				}
+				for i, a := range call.Common().Args {
+					if i < len(cal.Params) && isIntKeyMap(a.Type()) {
+						union(idOf(a), cal.Params[i])
+					}
+				}
+			}
+		}
+	}
+	classes := map[any][]use{}
+	for id, us := range uses {
+		r := find(id)
+		classes[r] = append(classes[r], us...)
+	}
+	n := 0
+	for _, us := range classes {
+		count := map[int]int{}
+		for _, u := range us {
+			count[u.base]++
+		}
+		n += len(us)
+		if len(count) <= 1 {
+			continue
+		}
+		// the majority base is the map's base
+		best, bestN := 0, -1
+		for bse, k := range count {
+			if k > bestN || (k == bestN && bse < best) {
+				best, bestN = bse, k
+			}
+		}
+		for _, u := range us {
+			if u.base != best {
+				c.finding("K-BASE", funcName(u.fn), fmt.Sprintf("line-keyed map %s in base %d", u.what, u.base), u.pos,
+					fmt.Sprintf("a map keyed by line numbers is used with keys counted from %d here and from %d elsewhere (syntax-tree lines start at 1, the sets of error and posting lines are keyed from 0): the %s misses by one line - the posting after a syntax error is taken for the erroneous one, or a posting line is not recognised as such and is edited twice", u.base, best, u.what))
+			}
+		}
+	}
+	for _, us := range classes {
+		if len(us) > 0 {
+			ok := true
+			b0 := us[0].base
+			for _, u := range us {
+				if u.base != b0 {
+					ok = false
+				}
+			}
+			if ok {
+				c.ok("K-BASE", funcName(us[0].fn), fmt.Sprintf("line-keyed map used in base %d throughout (%d uses)", b0, len(us)), us[0].pos, "all stores and lookups of this map use keys in one base")
+			}
+		}
+	}
+	c.census("K-BASE", "stores and lookups of line-keyed maps with a classified key", n, 2)
+}
+
+// rulePayeeKey (I-PAYEEKEY): a transaction is filed under one name everywhere: its payee, or - when it has none -
+// its description.  The collectors of payee names, payee counts and payee templates, the workspace index and the
+// hover all derive that name themselves; wherever a value merges a transaction's Payee and Description (a phi of
+// the two loads), the choice is made by a test of the Payee.  A collector that prefers the Description (`name :=
+// tx.Description; if name == "" { name = tx.Payee }`) files `Grocery Store | weekly shopping` under the whole
+// description: counts are stored under a key no label has, so frequently used payees rank as unused.
+func rulePayeeKey(c *Ctx) {
+	n := 0
+	isTxField := func(v ssa.Value, name string) bool {
+		ld, ok := stripConv(v).(*ssa.UnOp)
+		if !ok || ld.Op != token.MUL {
+			if fl, ok := stripConv(v).(*ssa.Field); ok && typeHasSuffix(fl.X.Type(), "ast.Transaction") {
+				if st, ok := fl.X.Type().Underlying().(*types.Struct); ok {
+					return st.Field(fl.Field).Name() == name
+				}
+			}
+			return false
+		}
+		fa, ok := ld.X.(*ssa.FieldAddr)
+		return ok && typeHasSuffix(fa.X.Type(), "ast.Transaction") && fieldVarOfAddr(fa).Name() == name
+	}
+	for _, f := range c.P.ModuleFuncs() {
+		for _, b := range f.Blocks {
+			for _, ins := range b.Instrs {
+				phi, ok := ins.(*ssa.Phi)
+				if !ok {
+					break
+				}
+				hasP, hasD := false, false
+				for _, e := range phi.Edges {
+					if isTxField(e, "Payee") {
+						hasP = true
+					}
+					if isTxField(e, "Description") {
+						hasD = true
+					}
+				}
+				if !hasP || !hasD {
+					continue
+				}
+				n++
+				// the branch that decides between the two: the nearest dominating If of the phi's block
+				onPayee, onDesc := false, false
+				for d := b.Idom(); d != nil; d = d.Idom() {
+					ifi, ok := lastInstr(d).(*ssa.If)
+					if !ok {
+						continue
+					}
+					for w := range backSlice(ifi.Cond) {
+						if isTxField(w, "Payee") {
+							onPayee = true
+						}
+						if isTxField(w, "Description") {
+							onDesc = true
+						}
+					}
+					break
+				}
+				c.check(onPayee && !onDesc, "I-PAYEEKEY", funcName(f), "payee-or-description is decided by the payee", phi.Pos(),
+					"the name a transaction is filed under is its payee unless the payee is empty",
+					"a transaction's name is chosen between Payee and Description by a test that is not a test of the Payee alone: for `payee | note` transactions this collector files the transaction under another name than the collectors of labels, counts and templates do - counts and templates are stored under keys no completion label has")
+			}
+		}
+	}
+	c.census("I-PAYEEKEY", "values that merge a transaction's payee and description", n, 2)
+}
